@@ -13,13 +13,14 @@ include!("store_common.rs");
 //@ mem: 20
 //@ covers: none
 //@ unwindset: put_bytes=80; heed::bytes_=260; heed::Table=6; memcmp.0=70; repeat::Repeat=190; Repeat.*try_fold=190; mmap_append=200; read_hex=34; enc_tags=6
-//@ cbmc: --max-field-sensitivity-array-size 800
+//@ cbmc: --max-field-sensitivity-array-size 1100
 //@ encodes: Store::store_event, Lmdb::index, Store::remove_event, Lmdb::deindex, Lmdb::deindex_id, Lmdb::stats
-//@ bounds: fresh store; one event (kind 1, arbitrary created_at) with the tags [e ab] [ee x] [p] [e ab]: a repeated indexable tag, a two-letter name, a name without value. After the store the id/time/author/author-kind indexes hold 1 entry each and the three tag indexes 1 each (the repeated tag shares its key); after remove_event every index count is 0 and the event is not retrievable
+//@ bounds: fresh store; one event (kind 1, created_at arbitrary in 4096..=4351: one arbitrary byte) with the tags [e ab] [ee x] [p] [e ab]: a repeated indexable tag, a two-letter name, a name without value. After the store the id/time/author/author-kind indexes hold 1 entry each and the three tag indexes 1 each (the repeated tag shares its key); after remove_event every index count is 0 and the event is not retrievable
 //@ outside: histories; values longer than 182 bytes
 store_harness!(c17_index_remove_mirror, {
     let store = verif_store();
-    let t: u64 = kani::any();
+    let lo: u8 = kani::any();
+    let t: u64 = 0x1000 + lo as u64;
     let mut b = [0u8; 220];
     let n = enc_event_img(1, t, &ID_A, &PK_1, &SIG_0, &[&[1, 2], &[2, 1], &[1], &[1, 2]], b"eabeexpeab", b"", &mut b);
     assert!(outcome(store.store_event(as_event(&b[..n]))) == Outcome::Stored);
@@ -36,6 +37,39 @@ store_harness!(c17_index_remove_mirror, {
     assert!(iy.i_index_entries == 0 && iy.ci_index_entries == 0 && iy.ac_index_entries == 0 && iy.akc_index_entries == 0);
     assert!(iy.tc_index_entries == 0 && iy.atc_index_entries == 0 && iy.ktc_index_entries == 0);
     assert!(iy.deleted_index_entries == 0);
+    core::mem::forget(s2);
+    core::mem::forget(store);
+});
+
+//@ harness: c17_index_deindex_mirror_lmdb
+//@ tier: quick
+//@ timeout: 2400
+//@ mem: 16
+//@ covers: none
+//@ unwindset: put_bytes=80; heed::bytes_=260; heed::Table=6; memcmp.0=70; repeat::Repeat=190; Repeat.*try_fold=190; mmap_append=200; enc_tags=6
+//@ cbmc: --max-field-sensitivity-array-size 1100
+//@ encodes: EventStore::store_event, Lmdb::index, Lmdb::deindex, Lmdb::deindex_id, Lmdb::stats (through Store::stats)
+//@ bounds: one event (kind 7, created_at arbitrary in 4096..=4351: one arbitrary byte) with the tags [p v(2 arbitrary bytes)] [q] [ ] indexed with Lmdb::index and removed with Store::remove_event: counts 1/1/1/1 and 1/1/1 for the tag indexes after indexing (value-less and empty tags are not indexed), all zero after removal
+store_harness!(c17_index_deindex_mirror_lmdb, {
+    let store = verif_store();
+    let lo: u8 = kani::any();
+    let t: u64 = 0x1000 + lo as u64;
+    let v: [u8; 2] = kani::any();
+    let pool = [b'p', v[0], v[1], b'q'];
+    let mut b = [0u8; 200];
+    let n = enc_event_img(7, t, &ID_C, &PK_2, &SIG_0, &[&[1, 2], &[1], &[]], &pool, b"", &mut b);
+    let _ = seed_stored(&store, as_event(&b[..n]));
+    let s = ok!(store.stats());
+    let ix = &s.index_stats;
+    assert!(ix.i_index_entries == 1 && ix.ci_index_entries == 1 && ix.ac_index_entries == 1 && ix.akc_index_entries == 1);
+    assert!(ix.tc_index_entries == 1 && ix.atc_index_entries == 1 && ix.ktc_index_entries == 1);
+    core::mem::forget(s);
+    ok!(store.remove_event(Id::from_bytes(ID_C)));
+    let s2 = ok!(store.stats());
+    let iy = &s2.index_stats;
+    assert!(iy.i_index_entries == 0 && iy.ci_index_entries == 0 && iy.ac_index_entries == 0 && iy.akc_index_entries == 0);
+    assert!(iy.tc_index_entries == 0 && iy.atc_index_entries == 0 && iy.ktc_index_entries == 0);
+    assert!(!has(&store, &ID_C));
     core::mem::forget(s2);
     core::mem::forget(store);
 });
